@@ -377,6 +377,10 @@ func builtinStringSplit(call FunctionCall) Value {
 		search := separatorValue.object().regExpValue().regularExpression
 		valueArray := []Value{}
 		result := search.FindAllStringSubmatchIndex(target, -1)
+		if targetLength == 0 && result != nil {
+			// 15.5.4.14 step 11: the empty string gives no piece at all when the separator matches it.
+			return objectValue(call.runtime.newArray(0))
+		}
 		lastIndex := 0
 		found := 0
 
